@@ -72,6 +72,31 @@ static std::string macroBody(int k, std::string const & kind) {
         s.addAssertion(l.mkOr(l.mkLeq(y, l.getTerm_RealZero()), l.mkLeq(l.mkTimes(B, y), l.mkTimes(l.mkTimes(B, B), K))));
         sstat r = s.check(); os << (r == s_True ? "sat" : r == s_False ? "unsat" : "unknown");
         if (r == s_True) { auto m = s.getModel(); os << " x=" << l.pp(m->evaluate(x)) << " y=" << l.pp(m->evaluate(y)); }
+    } else if (kind == "lraeq") {            // top-level equalities: constant substitution merges polynomials during preprocessing
+        ArithLogic l(Logic_t::QF_LRA); MainSolver s(l, cfg, "s");
+        PTRef x = l.mkRealVar("x"), y = l.mkRealVar("y"), z = l.mkRealVar("z"); PTRef B = l.mkConst(l.getSort_real(), BIG); PTRef K = l.mkConst(l.getSort_real(), std::to_string(k + 3).c_str());
+        s.addAssertion(l.mkEq(x, l.mkTimes(K, B)));
+        s.addAssertion(l.mkEq(l.mkPlus(x, y), l.mkPlus(B, K)));
+        s.addAssertion(l.mkEq(l.mkPlus(l.mkTimes(K, y), z), l.mkTimes(B, B)));
+        s.addAssertion(l.mkOr(l.mkLeq(z, y), l.mkLeq(y, z)));
+        sstat r = s.check(); os << (r == s_True ? "sat" : r == s_False ? "unsat" : "unknown");
+        if (r == s_True) { auto m = s.getModel(); os << " x=" << l.pp(m->evaluate(x)) << " y=" << l.pp(m->evaluate(y)) << " z=" << l.pp(m->evaluate(z)); }
+    } else if (kind == "liacut") {           // integer problems that need many integer checks (cuts from proofs every 10th)
+        for (int round = 0; round < 3; round++) {
+            ArithLogic l(Logic_t::QF_LIA); MainSolver s(l, cfg, "s");
+            PTRef x = l.mkIntVar("x"), y = l.mkIntVar("y"), z = l.mkIntVar("z"); auto c = [&](int n) { return l.mkIntConst(n); };
+            s.addAssertion(l.mkEq(l.mkPlus(l.mkTimes(c(6 + 2 * round), x), l.mkTimes(c(10), y)), l.mkPlus(l.mkTimes(c(4), z), c(2 * k + 3))));   // even = odd: no integer solution
+            s.addAssertion(l.mkAnd(l.mkLeq(c(-40), x), l.mkLeq(x, c(40)))); s.addAssertion(l.mkAnd(l.mkLeq(c(-40), y), l.mkLeq(y, c(40)))); s.addAssertion(l.mkAnd(l.mkLeq(c(-40), z), l.mkLeq(z, c(40))));
+            sstat r = s.check(); os << (r == s_True ? "sat" : r == s_False ? "unsat" : "unknown") << ";";
+        }
+    } else if (kind == "itp") {              // Farkas interpolation
+        cfg.setOption(SMTConfig::o_produce_inter, SMTOption(true), msg);
+        ArithLogic l(Logic_t::QF_LRA); MainSolver s(l, cfg, "s");
+        PTRef x = l.mkRealVar("x"), y = l.mkRealVar("y"), z = l.mkRealVar("z"); PTRef B = l.mkConst(l.getSort_real(), BIG); PTRef K = l.mkConst(l.getSort_real(), std::to_string(k + 3).c_str());
+        s.addAssertion(l.mkAnd(l.mkLeq(l.mkTimes(B, x), y), l.mkLeq(y, l.mkPlus(z, K))));
+        s.addAssertion(l.mkAnd(l.mkLeq(l.mkPlus(z, l.mkTimes(K, B)), l.mkTimes(B, x)), l.mkLeq(l.getTerm_RealZero(), K)));
+        sstat r = s.check(); os << (r == s_True ? "sat" : r == s_False ? "unsat" : "unknown");
+        if (r == s_False) { auto ctx = s.getInterpolationContext(); vec<PTRef> itps; ipartitions_t mask; setbit(mask, 0); ctx->getSingleInterpolant(itps, mask); for (PTRef t : itps) os << " " << l.pp(t); }
     } else if (kind == "lia") {
         ArithLogic l(Logic_t::QF_LIA); MainSolver s(l, cfg, "s");
         PTRef x = l.mkIntVar("x"), y = l.mkIntVar("y"); PTRef B = l.mkIntConst(FastRational(BIG)); PTRef K = l.mkIntConst(k + 3);
@@ -102,6 +127,9 @@ static std::vector<Body> bodiesOf(std::string const & h) {
     if (h == "macro-lia") return {[] { return macroBody(0, "lia"); }, [] { return macroBody(1, "lia"); }};
     if (h == "macro-uf") return {[] { return macroBody(0, "uf"); }, [] { return macroBody(1, "uf"); }};
     if (h == "macro-ufsat") return {[] { return macroBody(0, "ufsat"); }, [] { return macroBody(1, "ufsat"); }};
+    if (h == "macro-lraeq") return {[] { return macroBody(0, "lraeq"); }, [] { return macroBody(1, "lraeq"); }};
+    if (h == "macro-liacut") return {[] { return macroBody(0, "liacut"); }, [] { return macroBody(1, "liacut"); }};
+    if (h == "macro-itp") return {[] { return macroBody(0, "itp"); }, [] { return macroBody(1, "itp"); }};
     if (h == "macro-mixed") return {[] { return macroBody(0, "lra"); }, [] { return macroBody(1, "lia"); }};
     if (h == "macro3") return {[] { return macroBody(0, "lra"); }, [] { return macroBody(1, "lia"); }, [] { return macroBody(0, "uf"); }};
     fprintf(stderr, "unknown harness %s\n", h.c_str()); exit(2);
@@ -261,14 +289,18 @@ int main(int argc, char ** argv) {
         for (size_t i = 0; i < t.obs.size(); i++) printf("thread %zu: %s\n   alone: %s\n", i, t.obs[i].c_str(), solo[i].c_str());
     } else if (argc >= 4 && !std::strcmp(argv[1], "race")) {
         int nth = std::atoi(argv[2]), reps = std::atoi(argv[3]);
-        char const * kinds[] = {"lra", "ufsat", "lia"};
-        std::vector<std::string> alone; for (int i = 0; i < nth; i++) alone.push_back(macroBody(i % 2, kinds[i % 3]));
-        for (int r = 0; r < reps; r++) {
-            std::vector<std::string> obs(nth); std::vector<std::thread> th; std::atomic<bool> go{false};
-            for (int i = 0; i < nth; i++) th.emplace_back([&, i] { while (!go.load()) {} obs[i] = macroBody(i % 2, kinds[i % 3]); });
-            go = true; for (auto & t : th) t.join();
-            cov["race_runs"]++;
-            for (int i = 0; i < nth; i++) if (obs[i] != alone[i]) fail("interference:observation_differs", "free-running thread " + std::to_string(i) + " observed [" + obs[i].substr(0, 80) + "] alone [" + alone[i].substr(0, 80) + "]");
+        // waves: all threads in the same code path (one wave per kind), then a mixed wave
+        std::vector<std::string> kinds = {"lra", "lraeq", "lia", "liacut", "itp", "uf", "ufsat", "mixed"};
+        for (auto const & kind : kinds) {
+            auto kindOf = [&](int i) { return kind == "mixed" ? kinds[i % 7] : kind; };
+            std::vector<std::string> alone; for (int i = 0; i < nth; i++) alone.push_back(macroBody(i % 2, kindOf(i)));
+            for (int r = 0; r < reps; r++) {
+                std::vector<std::string> obs(nth); std::vector<std::thread> th; std::atomic<bool> go{false};
+                for (int i = 0; i < nth; i++) th.emplace_back([&, i] { while (!go.load()) {} try { obs[i] = macroBody(i % 2, kindOf(i)); } catch (std::exception & e) { obs[i] = std::string("exception ") + e.what(); } });
+                go = true; for (auto & t : th) t.join();
+                cov["race_runs"]++;
+                for (int i = 0; i < nth; i++) if (obs[i] != alone[i]) fail("interference:observation_differs", "free-running " + kind + " thread " + std::to_string(i) + " observed [" + obs[i].substr(0, 80) + "] alone [" + alone[i].substr(0, 80) + "]");
+            }
         }
     } else { fprintf(stderr, "usage: schedmc explore <harness> <bound> <shard> <nshards> | replay <harness> <choices> | race <nthreads> <reps>\n"); return 2; }
     for (auto & [k, v] : cov) printf("COV\t%s\t%ld\n", k.c_str(), v);
